@@ -1,0 +1,288 @@
+//go:build verif
+
+// Contracts for the deductive verification in /verif (govc). This file contains
+// comments only; it is compiled only with -tags verif and declares nothing.
+
+package cryptobyte
+
+// A reader's receiver is a valid pointer that does not itself live inside the buffer it
+// describes; an output pointer is distinct from the receiver and not inside the buffer.
+//@ pred okS(s) = s != nil && sep(s, *s)
+//@ pred okOut(out, s) = out != nil && out != s && sep(out, *s)
+
+// ---------------------------------------------------------------- string.go
+
+//@ func (*String).read
+//@   requires okS(s)
+//@   ensures  (n < 0 || n > len(old(*s))) ==> result == nil && same(*s, old(*s))
+//@   ensures  (0 <= n && n <= len(old(*s))) ==> same(result, old(*s)[:n]) && same(*s, old(*s)[n:])
+//@   modifies *s
+//@   terminates
+
+//@ func (*String).Skip
+//@   requires okS(s)
+//@   ensures  result <==> (0 <= n && n <= len(old(*s)) && old(*s) != nil)
+//@   ensures  result ==> same(*s, old(*s)[n:])
+//@   ensures  !result ==> same(*s, old(*s))
+//@   modifies *s
+//@   terminates
+
+//@ func (*String).ReadUint8
+//@   requires okS(s) && okOut(out, s)
+//@   ensures  result <==> len(old(*s)) >= 1
+//@   ensures  result ==> *out == old((*s)[0]) && same(*s, old(*s)[1:])
+//@   ensures  !result ==> same(*s, old(*s)) && *out == old(*out)
+//@   modifies *s, *out
+//@   terminates
+
+//@ func (*String).ReadUint16
+//@   requires okS(s) && okOut(out, s)
+//@   ensures  result <==> len(old(*s)) >= 2
+//@   ensures  result ==> *out == uint16(old((*s)[0]))<<8 | uint16(old((*s)[1])) && same(*s, old(*s)[2:])
+//@   ensures  !result ==> same(*s, old(*s)) && *out == old(*out)
+//@   modifies *s, *out
+//@   terminates
+
+//@ func (*String).ReadUint24
+//@   requires okS(s) && okOut(out, s)
+//@   ensures  result <==> len(old(*s)) >= 3
+//@   ensures  result ==> *out == uint32(old((*s)[0]))<<16 | uint32(old((*s)[1]))<<8 | uint32(old((*s)[2])) && same(*s, old(*s)[3:])
+//@   ensures  !result ==> same(*s, old(*s)) && *out == old(*out)
+//@   modifies *s, *out
+//@   terminates
+
+//@ func (*String).ReadUint32
+//@   requires okS(s) && okOut(out, s)
+//@   ensures  result <==> len(old(*s)) >= 4
+//@   ensures  result ==> *out == uint32(old((*s)[0]))<<24 | uint32(old((*s)[1]))<<16 | uint32(old((*s)[2]))<<8 | uint32(old((*s)[3])) && same(*s, old(*s)[4:])
+//@   ensures  !result ==> same(*s, old(*s)) && *out == old(*out)
+//@   modifies *s, *out
+//@   terminates
+
+//@ func (*String).readUnsigned
+//@   requires okS(s) && okOut(out, s)
+//@   requires 1 <= length && length <= 4
+//@   loop 1 invariant 0 <= i && i <= length
+//@   loop 1 invariant result == spec.be_val(seq(v), i)
+//@   loop 1 lemma spec.be_val_step(seq(v), i)
+//@   ensures  result <==> len(old(*s)) >= length
+//@   ensures  result ==> *out == spec.be_val(seq(old(*s)), length) && same(*s, old(*s)[length:])
+//@   ensures  !result ==> same(*s, old(*s)) && *out == old(*out)
+//@   modifies *s, *out
+//@   terminates
+
+//@ func (*String).readLengthPrefixed
+//@   requires okS(s) && okOut(outChild, s)
+//@   requires 1 <= lenLen && lenLen <= 4
+//@   loop 1 invariant 0 <= it && it <= lenLen && length == spec.be_val(seq(lenBytes), it)
+//@   loop 1 lemma spec.be_val_step(seq(lenBytes), it)
+//@   ensures  result <==> (len(old(*s)) >= lenLen && int(spec.be_val(seq(old(*s)), lenLen)) >= 0 && len(old(*s)) - lenLen >= int(spec.be_val(seq(old(*s)), lenLen)))
+//@   ensures  result ==> same(*outChild, old(*s)[lenLen : lenLen+int(spec.be_val(seq(old(*s)), lenLen))])
+//@   ensures  result ==> same(*s, old(*s)[lenLen+int(spec.be_val(seq(old(*s)), lenLen)):])
+//@   ensures  !result ==> same(*outChild, old(*outChild))
+//@   modifies *s, *outChild
+//@   terminates
+
+//@ func (*String).ReadUint8LengthPrefixed
+//@   requires okS(s) && okOut(out, s)
+//@   ensures  result <==> (len(old(*s)) >= 1 && len(old(*s)) - 1 >= int(old((*s)[0])))
+//@   ensures  result ==> same(*out, old(*s)[1 : 1+int(old((*s)[0]))]) && same(*s, old(*s)[1+int(old((*s)[0])):])
+//@   ensures  !result ==> same(*out, old(*out))
+//@   modifies *s, *out
+//@   terminates
+
+//@ func (*String).ReadUint16LengthPrefixed
+//@   requires okS(s) && okOut(out, s)
+//@   ensures  result <==> (len(old(*s)) >= 2 && len(old(*s)) - 2 >= int(spec.be_val(seq(old(*s)), 2)))
+//@   ensures  result ==> same(*out, old(*s)[2 : 2+int(spec.be_val(seq(old(*s)), 2))]) && same(*s, old(*s)[2+int(spec.be_val(seq(old(*s)), 2)):])
+//@   ensures  !result ==> same(*out, old(*out))
+//@   modifies *s, *out
+//@   terminates
+
+//@ func (*String).ReadUint24LengthPrefixed
+//@   requires okS(s) && okOut(out, s)
+//@   ensures  result <==> (len(old(*s)) >= 3 && len(old(*s)) - 3 >= int(spec.be_val(seq(old(*s)), 3)))
+//@   ensures  result ==> same(*out, old(*s)[3 : 3+int(spec.be_val(seq(old(*s)), 3))]) && same(*s, old(*s)[3+int(spec.be_val(seq(old(*s)), 3)):])
+//@   ensures  !result ==> same(*out, old(*out))
+//@   modifies *s, *out
+//@   terminates
+
+//@ func (*String).ReadBytes
+//@   requires okS(s) && okOut(out, s)
+//@   ensures  result <==> (0 <= n && n <= len(old(*s)) && old(*s) != nil)
+//@   ensures  result ==> same(*out, old(*s)[:n]) && same(*s, old(*s)[n:])
+//@   ensures  !result ==> same(*s, old(*s)) && same(*out, old(*out))
+//@   modifies *s, *out
+//@   terminates
+
+//@ func (*String).CopyBytes
+//@   requires okS(s)
+//@   ensures  result <==> (len(out) <= len(old(*s)) && old(*s) != nil)
+//@   ensures  result ==> same(*s, old(*s)[len(out):]) && forall(i, 0, len(out), out[i] == old((*s)[i]))
+//@   ensures  !result ==> same(*s, old(*s))
+//@   modifies *s, elems(out)
+//@   terminates
+
+//@ func (String).Empty
+//@   ensures result <==> len(s) == 0
+//@   terminates
+
+// ---------------------------------------------------------------- asn1.go (readers)
+
+// The element header accepted by readASN1 is exactly spec.der_ok (X.690 8.1.2 low-tag
+// form, 8.1.3/10.1 definite minimal length, at most 4 length octets, total < 2^32).
+//@ func (*String).readASN1
+//@   requires okS(s) && okOut(out, s) && sep(outTag, *s)
+//@   ensures  result <==> spec.der_ok(seq(old(*s)), len(old(*s)))
+//@   ensures  result ==> same(*s, old(*s)[spec.der_total(seq(old(*s))):])
+//@   ensures  result && skipHeader ==> same(*out, old(*s)[spec.der_hdrlen(seq(old(*s))) : spec.der_total(seq(old(*s)))])
+//@   ensures  result && !skipHeader ==> same(*out, old(*s)[:spec.der_total(seq(old(*s)))])
+//@   ensures  result && outTag != nil ==> uint8(*outTag) == old((*s)[0])
+//@   ensures  !result ==> same(*s, old(*s)) && same(*out, old(*out))
+//@   modifies *s, *out, *outTag
+//@   terminates
+
+//@ func (*String).ReadAnyASN1
+//@   requires okS(s) && okOut(out, s) && sep(outTag, *s)
+//@   ensures  result <==> spec.der_ok(seq(old(*s)), len(old(*s)))
+//@   ensures  result ==> same(*s, old(*s)[spec.der_total(seq(old(*s))):])
+//@   ensures  result ==> same(*out, old(*s)[spec.der_hdrlen(seq(old(*s))) : spec.der_total(seq(old(*s)))])
+//@   ensures  result && outTag != nil ==> uint8(*outTag) == old((*s)[0])
+//@   ensures  !result ==> same(*s, old(*s)) && same(*out, old(*out))
+//@   modifies *s, *out, *outTag
+//@   terminates
+
+//@ func (*String).ReadAnyASN1Element
+//@   requires okS(s) && okOut(out, s) && sep(outTag, *s)
+//@   ensures  result <==> spec.der_ok(seq(old(*s)), len(old(*s)))
+//@   ensures  result ==> same(*s, old(*s)[spec.der_total(seq(old(*s))):])
+//@   ensures  result ==> same(*out, old(*s)[:spec.der_total(seq(old(*s)))])
+//@   ensures  result && outTag != nil ==> uint8(*outTag) == old((*s)[0])
+//@   ensures  !result ==> same(*s, old(*s)) && same(*out, old(*out))
+//@   modifies *s, *out, *outTag
+//@   terminates
+
+// ReadASN1: on a tag mismatch the element has already been consumed (the code reads
+// first and compares afterwards), so only the success case pins *s and *out.
+//@ func (*String).ReadASN1
+//@   requires okS(s) && okOut(out, s)
+//@   ensures  result <==> (spec.der_ok(seq(old(*s)), len(old(*s))) && old((*s)[0]) == uint8(tag))
+//@   ensures  result ==> same(*s, old(*s)[spec.der_total(seq(old(*s))):])
+//@   ensures  result ==> same(*out, old(*s)[spec.der_hdrlen(seq(old(*s))) : spec.der_total(seq(old(*s)))])
+//@   ensures  !spec.der_ok(seq(old(*s)), len(old(*s))) ==> same(*s, old(*s)) && same(*out, old(*out))
+//@   modifies *s, *out
+//@   terminates
+
+//@ func (*String).ReadASN1Element
+//@   requires okS(s) && okOut(out, s)
+//@   ensures  result <==> (spec.der_ok(seq(old(*s)), len(old(*s))) && old((*s)[0]) == uint8(tag))
+//@   ensures  result ==> same(*s, old(*s)[spec.der_total(seq(old(*s))):])
+//@   ensures  result ==> same(*out, old(*s)[:spec.der_total(seq(old(*s)))])
+//@   ensures  !spec.der_ok(seq(old(*s)), len(old(*s))) ==> same(*s, old(*s)) && same(*out, old(*out))
+//@   modifies *s, *out
+//@   terminates
+
+//@ func (*String).ReadASN1Bytes
+//@   requires okS(s) && okOut(out, s)
+//@   ensures  result <==> (spec.der_ok(seq(old(*s)), len(old(*s))) && old((*s)[0]) == uint8(tag))
+//@   ensures  result ==> same(*s, old(*s)[spec.der_total(seq(old(*s))):])
+//@   ensures  result ==> same(*out, old(*s)[spec.der_hdrlen(seq(old(*s))) : spec.der_total(seq(old(*s)))])
+//@   modifies *s, *out
+//@   terminates
+
+//@ func (String).PeekASN1Tag
+//@   ensures result <==> (len(s) > 0 && s[0] == uint8(tag))
+//@   terminates
+
+//@ func (*String).SkipASN1
+//@   requires okS(s)
+//@   ensures  result <==> (spec.der_ok(seq(old(*s)), len(old(*s))) && old((*s)[0]) == uint8(tag))
+//@   ensures  result ==> same(*s, old(*s)[spec.der_total(seq(old(*s))):])
+//@   modifies *s
+//@   terminates
+
+// Optional readers (property C21, second sentence): nothing is consumed and the
+// default is produced when the tag is absent; exactly one element is consumed when present.
+//@ func (*String).ReadOptionalASN1
+//@   requires okS(s) && okOut(out, s) && sep(outPresent, *s)
+//@   ensures  !(len(old(*s)) > 0 && old((*s)[0]) == uint8(tag)) ==> result && same(*s, old(*s)) && same(*out, old(*out))
+//@   ensures  (len(old(*s)) > 0 && old((*s)[0]) == uint8(tag)) ==> (result <==> spec.der_ok(seq(old(*s)), len(old(*s))))
+//@   ensures  (len(old(*s)) > 0 && old((*s)[0]) == uint8(tag)) && result ==> same(*s, old(*s)[spec.der_total(seq(old(*s))):]) && same(*out, old(*s)[spec.der_hdrlen(seq(old(*s))) : spec.der_total(seq(old(*s)))])
+//@   ensures  outPresent != nil ==> (*outPresent <==> (len(old(*s)) > 0 && old((*s)[0]) == uint8(tag)))
+//@   modifies *s, *out, *outPresent
+//@   terminates
+
+//@ func (*String).SkipOptionalASN1
+//@   requires okS(s)
+//@   ensures  !(len(old(*s)) > 0 && old((*s)[0]) == uint8(tag)) ==> result && same(*s, old(*s))
+//@   ensures  (len(old(*s)) > 0 && old((*s)[0]) == uint8(tag)) ==> (result <==> spec.der_ok(seq(old(*s)), len(old(*s))))
+//@   ensures  (len(old(*s)) > 0 && old((*s)[0]) == uint8(tag)) && result ==> same(*s, old(*s)[spec.der_total(seq(old(*s))):])
+//@   modifies *s
+//@   terminates
+
+// BOOLEAN (X.690 8.2 + 11.1): one content octet, 0x00 or 0xff.
+//@ func (*String).ReadASN1Boolean
+//@   requires okS(s) && okOut(out, s)
+//@   ensures  result <==> (spec.der_ok(seq(old(*s)), len(old(*s))) && old((*s)[0]) == 1 && spec.der_bodylen(seq(old(*s))) == 1 && (old((*s)[2]) == 0 || old((*s)[2]) == 0xff))
+//@   ensures  result ==> same(*s, old(*s)[3:]) && (*out <==> old((*s)[2]) == 0xff)
+//@   modifies *s, *out
+//@   terminates
+
+// INTEGER contents (X.690 8.3.2): at least one octet, and no redundant leading 0x00 / 0xff.
+//@ func checkASN1Integer
+//@   ensures result <==> spec.int_minimal(seq(bytes), len(bytes))
+//@   terminates
+
+//@ func asn1Signed
+//@   requires out != nil
+//@   loop 1 invariant 0 <= i && i <= length && *out == (old(*out) << uint(8*i)) | int64(spec.be64(seq(n), i))
+//@   loop 1 lemma spec.be64_step(seq(n), i)
+//@   ensures  result <==> len(n) <= 8
+//@   ensures  result ==> *out == spec.be_signed(seq(n), len(n))
+//@   ensures  !result ==> *out == old(*out)
+//@   modifies *out
+//@   terminates
+
+// The accumulator is not cleared first: every call site passes a zeroed variable.
+//@ func asn1Unsigned
+//@   requires out != nil && len(n) >= 1 && *out == 0
+//@   loop 1 invariant 0 <= i && i <= length && *out == spec.be64(seq(n), i)
+//@   loop 1 lemma spec.be64_step(seq(n), i)
+//@   ensures  result <==> ((len(n) <= 8 || (len(n) == 9 && n[0] == 0)) && n[0]&0x80 == 0)
+//@   ensures  result ==> *out == spec.be64(seq(n), len(n))
+//@   ensures  !result ==> *out == old(*out)
+//@   modifies *out
+//@   terminates
+
+//@ func (*String).readASN1Int64
+//@   requires okS(s) && okOut(out, s)
+//@   ensures  result ==> spec.der_ok(seq(old(*s)), len(old(*s))) && old((*s)[0]) == 2 && same(*s, old(*s)[spec.der_total(seq(old(*s))):])
+//@   ensures  result ==> spec.int_minimal(seq(old(*s)[2:]), spec.der_bodylen(seq(old(*s)))) && spec.der_bodylen(seq(old(*s))) <= 8
+//@   ensures  result ==> *out == spec.be_signed(seq(old(*s)[spec.der_hdrlen(seq(old(*s))):]), spec.der_bodylen(seq(old(*s))))
+//@   ensures  (spec.der_ok(seq(old(*s)), len(old(*s))) && old((*s)[0]) == 2 && spec.der_bodylen(seq(old(*s))) <= 8 && spec.int_minimal(seq(old(*s)[spec.der_hdrlen(seq(old(*s))):]), spec.der_bodylen(seq(old(*s))))) ==> result
+//@   modifies *s, *out
+//@   terminates
+
+//@ func (*String).readASN1Uint64
+//@   requires okS(s) && okOut(out, s) && *out == 0
+//@   ensures  result ==> spec.der_ok(seq(old(*s)), len(old(*s))) && old((*s)[0]) == 2 && same(*s, old(*s)[spec.der_total(seq(old(*s))):])
+//@   ensures  result ==> spec.int_minimal(seq(old(*s)[spec.der_hdrlen(seq(old(*s))):]), spec.der_bodylen(seq(old(*s))))
+//@   ensures  result ==> *out == spec.be64(seq(old(*s)[spec.der_hdrlen(seq(old(*s))):]), spec.der_bodylen(seq(old(*s))))
+//@   modifies *s, *out
+//@   terminates
+
+//@ func (*String).ReadASN1Int64WithTag
+//@   requires okS(s) && okOut(out, s)
+//@   ensures  result ==> spec.der_ok(seq(old(*s)), len(old(*s))) && old((*s)[0]) == uint8(tag) && same(*s, old(*s)[spec.der_total(seq(old(*s))):])
+//@   ensures  result ==> spec.int_minimal(seq(old(*s)[spec.der_hdrlen(seq(old(*s))):]), spec.der_bodylen(seq(old(*s)))) && spec.der_bodylen(seq(old(*s))) <= 8
+//@   ensures  result ==> *out == spec.be_signed(seq(old(*s)[spec.der_hdrlen(seq(old(*s))):]), spec.der_bodylen(seq(old(*s))))
+//@   modifies *s, *out
+//@   terminates
+
+//@ func (*String).ReadASN1Enum
+//@   requires okS(s) && okOut(out, s)
+//@   ensures  result ==> spec.der_ok(seq(old(*s)), len(old(*s))) && old((*s)[0]) == 10 && same(*s, old(*s)[spec.der_total(seq(old(*s))):])
+//@   ensures  result ==> spec.int_minimal(seq(old(*s)[spec.der_hdrlen(seq(old(*s))):]), spec.der_bodylen(seq(old(*s)))) && spec.der_bodylen(seq(old(*s))) <= 8
+//@   ensures  result ==> int64(*out) == spec.be_signed(seq(old(*s)[spec.der_hdrlen(seq(old(*s))):]), spec.der_bodylen(seq(old(*s))))
+//@   modifies *s, *out
+//@   terminates
